@@ -153,6 +153,23 @@ def analyse_switch_fn(program, rep):
             flag('order', e_in.node, 'on_switch_in does not carry (from, to)')
         dis_to = [i for i, s in stores if s.target.text
                   == f'{to_w}.dispatch_enabled' and norm(s.sym.node) == 'False']
+        # the path established that the entered world IS the world being
+        # left (an identity test): disabling that one disabled this one
+        same = [t for t, v in conds.items() if v is True and (
+            t.startswith(f'{to_w} is ') or t.endswith(f' is {to_w}'))]
+        dead = False
+        for t in same:
+            other = t[len(to_w) + 4:] if t.startswith(f'{to_w} is ') \
+                else t[:-len(to_w) - 4]
+            if conds.get(f'{other} is None') is True:
+                # the entered world would be None: to_world.dispatch(..)
+                # raises AttributeError, nothing is delivered on this path
+                dead = True
+            dis_to += [i for i, s in stores if s.target.text
+                       == f'{other}.dispatch_enabled'
+                       and norm(s.sym.node) == 'False']
+        if dead:
+            continue
         if not dis_to or min(dis_to) > i_in:
             flag('order', e_in.node, 'the entered world is not disabled '
                  'before on_switch_in is dispatched on it: the callback runs '
